@@ -219,10 +219,10 @@ namespace xtl
     struct xoptional_iterator_traits
     {
         using iterator_type = xoptional_iterator<ITV, ITB>;
-        using value_type = xoptional<typename ITV::value_type, typename ITB::value_type>;
-        using reference = xoptional<typename ITV::reference, typename ITB::reference>;
+        using value_type = xoptional<typename std::iterator_traits<ITV>::value_type, typename std::iterator_traits<ITB>::value_type>;
+        using reference = xoptional<typename std::iterator_traits<ITV>::reference, typename std::iterator_traits<ITB>::reference>;
         using pointer = xclosure_pointer<reference>;
-        using difference_type = typename ITV::difference_type;
+        using difference_type = typename std::iterator_traits<ITV>::difference_type;
     };
 
     template <class ITV, class ITB>
